@@ -202,6 +202,11 @@ pub mod kmers {
     include!(concat!(env!("DEBRUIJN_VERIF_DIR"), "/kani/kmers.rs"));
 }
 
+/// Native differential validation of the AVX2 intrinsic models (assumption check, see m_bitops_avx2.rs)
+pub fn validate_avx_models(n: usize) -> (usize, usize) {
+    crate::bitops_avx2::verif::validate_models(n)
+}
+
 /// Native replay entry: `path` is the harness path below `verif::` (e.g. `kmers::kmer48::k_rc`).
 pub fn replay(path: &str, vals: Vec<Vec<u8>>) -> Result<Vec<&'static str>, String> {
     let mut s = src::RSrc::new(vals);
@@ -214,6 +219,9 @@ pub fn replay(path: &str, vals: Vec<Vec<u8>>) -> Result<Vec<&'static str>, Strin
         "tables" => tables::replay(rest, &mut s),
         "kmers" => kmers::replay(rest, &mut s),
         "vmer" => crate::vmer::verif::replay(rest, &mut s),
+        "dna_string" => crate::dna_string::verif::replay(rest, &mut s),
+        "msp" => crate::msp::verif::replay(rest, &mut s),
+        "graph" => crate::graph::verif::replay(rest, &mut s),
         "filter" => crate::filter::verif::replay(rest, &mut s),
         "bitops_avx2" => crate::bitops_avx2::verif::replay(rest, &mut s),
         _ => false,
